@@ -875,7 +875,9 @@ class EventListenerPool(ProcessGroupBase):
     def handle_rejected(self, event):
         process = event.process
         procs = self.processes.values()
-        if process in procs: # this is one of our processes
+        # compare by identity: Subprocess.__eq__ compares priorities only, so
+        # a listener of another pool with the same priority would match
+        if any(process is p for p in procs): # this is one of our processes
             # rebuffer the event
             self._acceptEvent(event.event, head=True)
 
